@@ -65,7 +65,7 @@ BOUNDS = {
                  'bposd_iter': 20, 'p_decode': 0.1, 'new_errors_p': [0.1, 0.3, 0.5],
                  'new_errors_seeds': [1, 2, 3], 'new_errors_sizes': 2},
 }
-BUDGET_S = {'quick': 600, 'thorough': 5400}
+BUDGET_S = {'quick': 900, 'thorough': 7200}      # ~550 / ~3700 core-seconds of work: ~40 s / ~4 min on 16 idle cores
 
 ERROR_MODELS = ['Pure X', 'Pure Y', 'Pure Z', 'Depolarizing']        # main.js:345-350
 DIRECTIONS = {'Pure X': (1, 0, 0), 'Pure Y': (0, 1, 0), 'Pure Z': (0, 0, 1),
